@@ -196,9 +196,9 @@ Proof.
   - inv H. discriminate.
   - cbn in L. apply andb_true_iff in L. destruct L as [L1 L2]. apply andb_true_iff in L1. destruct L1 as [L1 L0].
     destruct (ev c st) as [o st1] eqn:Ec. destruct o; try discriminate.
-    destruct (is_nil v0); [eapply IH; eauto|].
-    eapply (m_seq_mv ev never Hev eq_refl b v0 st1 v st' L1); [|exact H].
-    intros ->. eapply Hev; [exact L0 | exact Ec].
+    destruct (is_nil (prim v0)); [eapply IH; eauto|].
+    eapply (m_seq_mv ev never Hev eq_refl b (prim v0) st1 v st' L1); [|exact H].
+    intros _. destruct v0; discriminate.
 Qed.
 
 Lemma m_items_none : forall ev evt items skip st r st',
@@ -229,7 +229,7 @@ Proof.
       * apply mk_list_mv.
     + eapply m_progn_mv; [apply IH | | exact MV | exact H]; reflexivity.
     + destruct (meval defs n sc tb f st) as [o st1]. destruct o; try discriminate.
-      destruct (is_nil v0); [inv H; discriminate|].
+      destruct (is_nil (prim v0)); [inv H; discriminate|].
       eapply m_progn_mv; [apply IH | | exact MV | exact H]; reflexivity.
     + eapply m_cond_mv; eauto.
     + destruct (m_args (meval defs n sc tb) inits [] st) as [[o|vs] st1] eqn:E;
@@ -429,16 +429,15 @@ Section Rel.
   Proof.
     intros pb R G H0 H2. induction cs as [|[c b] cs IH]; intros st o st' Gd HS NO.
     - cbn in HS. inv HS. eexists. split; [reflexivity|]. split; [reflexivity | exact I].
-    - cbn [g_clauses] in Gd. repeat (apply andb_true_iff in Gd; destruct Gd as [Gd ?]).
+    - cbn [g_clauses] in Gd. apply andb_true_iff in Gd. destruct Gd as [Gd Gcs]. apply andb_true_iff in Gd. destruct Gd as [Gd Gb].
+      apply andb_true_iff in Gd. destruct Gd as [Gc Gne].
       cbn [s_cond] in HS. destruct (es c st) as [o1 st1] eqn:E.
       assert (NO1 : o1 <> OOF) by (intro; subst; inv HS; congruence).
-      destruct (H0 c H4 st o1 st1 E NO1) as (r0 & EM & RL & EX).
+      destruct (H0 c Gc st o1 st1 E NO1) as (r0 & EM & RL & EX).
       pose proof (rel_inv _ _ RL (Hclean _ _ _ _ E)) as RI.
       cbn [m_cond]. rewrite EM. destruct o1; cbn in EX; try discriminate.
       + destruct RI as (vm & -> & Nv & Mk & Pv).
-        assert (vm = v).
-        { pose proof (Hmv _ _ _ _ Gd EM) as NV. destruct vm; cbn in *; try congruence. }
-        subst vm. destruct (is_nil v).
+        rewrite Pv. destruct (is_nil v).
         * eapply IH; eauto.
         * destruct b; [discriminate|]. change (m_seq em never (f :: b) v st1) with (m_seq em never (f :: b) VNil st1). eapply progn_rel; eauto.
       + subst r0. inv HS. eexists. split; [reflexivity|]. split; [reflexivity | exact I].
@@ -624,15 +623,14 @@ Proof.
     + (* Progn *)
       eapply progn_rel; eauto.
     + (* When *)
-      apply andb_true_iff in Gd. destruct Gd as [Gd G3]. apply andb_true_iff in Gd. destruct Gd as [G1 G2].
+      apply andb_true_iff in Gd. destruct Gd as [G2 G3].
       destruct (seval defs n bl tg f st) as [o1 st1] eqn:E.
       assert (NO1 : o1 <> OOF) by (intro; subst; inv HS; congruence).
       destruct (IH0 f G2 st o1 st1 E NO1) as (r0 & EM & RL & EX).
       pose proof (rel_inv _ _ RL (CL _ _ _ _ _ _ E)) as RI.
       rewrite EM. destruct o1; cbn in EX; try discriminate.
       * destruct RI as (vm & -> & Nv & Mk & Pv).
-        assert (vm = v) by (pose proof (MV sc tb _ _ _ _ G1 EM); destruct vm; cbn in *; congruence).
-        subst vm. destruct (is_nil v); [inv HS; fin|].
+        rewrite Pv. destruct (is_nil v); [inv HS; fin|].
         eapply progn_rel; eauto.
       * try subst r0. inv HS. fin.
       * try subst r0. inv HS. fin.
